@@ -238,4 +238,14 @@ Section Ladder.
     | WServed o tk' => (o, tk')
     | WDeclined tk' spent => msg_ladder st tk' rq ch spent
     end.
+  (* the same request on an engine's non-blocking reader: Server.ServeRawInline runs the chain with the
+     inline-only mark - the wire ladder is the whole budget, a decline is a hand-off with nothing written
+     and nothing remembered (the [spent] permit is a local of that call) - and Server.ServeRawReplay runs
+     it again on a worker with the replay mark: Cache.ServeDNS skips the ladder and enters the decoded
+     body.  [ch] / [ch'] are the writer-chain facts of the two passes. *)
+  Definition serve_inline_replay (st : store) (tk : tokens) (rq : lreq) (ch ch' : chain) : outcome * tokens :=
+    match wire_ladder st tk rq ch with
+    | WServed o tk' => (o, tk')
+    | WDeclined tk' _ => msg_ladder st tk' rq ch' None
+    end.
 End Ladder.
